@@ -40,6 +40,7 @@ def check(ctx):
   ctx.rule('C19.R4', 'no loop over a live view of a dict/set attribute whose body mutates that attribute')
   ctx.rule('C19.R5', 'parent deletion resets the children baseline and queues the old baseline as leaves; data watch toggles the children watch')
   ctx.rule('C19.R6', 'kazoo watch callbacks (functions handed to ChildrenWatch / DataWatch) never return False: a False result cancels the watch for good')
+  ctx.rule('C19.R7', 'baseline consistency: a listed child whose read failed is retried or taken out of the children baseline; a re-created parent is told apart from the old one (creation id), since the children watch of the old one has stopped')
   ctx.decline('agreement with a znode tree over all histories is not decided')
   cls = prog.cls(Z, 'ServerSet')
   osc = prog.func(Z, 'ServerSet._on_set_changed')
@@ -50,6 +51,7 @@ def check(ctx):
   r4(ctx)
   r5(ctx, cls)
   r6(ctx, cls)
+  r7(ctx, cls)
 
 
 def r1(ctx, osc, wk):
@@ -348,3 +350,36 @@ def r6(ctx, cls):
       ctx.ob('C19.R6', tgt, '%s callback never returns False' % c.func.id, not bad,
              'callback may return %s' % [U(b.value) for b in bad], why)
   ctx.floor('C19.R6', 'watch registrations', n, 2)
+
+
+def r7(ctx, cls):
+  prog = ctx.prog
+  # (a) a child that vanished between listing and reading: _safe_zk_node_to_member returns None for it.  The name is
+  # already part of the children baseline (_nodes); unless it is retried or taken out again, a member re-created under
+  # that name before the next listing is never announced
+  conv = prog.func(Z, 'ServerSet._zk_nodes_to_members')
+  wk = prog.func(Z, 'ServerSet._notification_worker')
+  handled = False
+  for f in (conv, wk):
+    for n in ast.walk(f.node):
+      # a statement-level reaction to a failed read: a branch on a falsy member that writes a set/dict attribute
+      if isinstance(n, ast.If):
+        t = U(n.test).replace(' ', '')
+        falsy_branch = n.orelse if not t.startswith('not') and 'isNone' not in t else n.body
+        for st in falsy_branch:
+          for c in ast.walk(st):
+            if isinstance(c, ast.Call) and isinstance(c.func, ast.Attribute) and c.func.attr in ('add', 'discard', 'remove') and U(c.func.value).startswith('self._'):
+              handled = True
+  ctx.ob('C19.R7', conv, 'a listed child whose read failed is retried or removed from the children baseline', handled,
+         'members whose read raised NoNodeError are silently filtered out while their names stay in _nodes: create X, list, X vanishes before the read, '
+         'X is re-created under the same name before the next listing -> the diff is empty and X is never announced',
+         'the consumer must hold exactly the members currently present, including members vanishing between listing and reading')
+  # (b) parent deleted and re-created between two callbacks
+  dc = prog.func(Z, 'ServerSet._data_changed')
+  stat = dc.params[2] if len(dc.params) > 2 else 'stat'
+  ids = [n for n in ast.walk(dc.node) if isinstance(n, ast.Attribute) and U(n.value) == stat and n.attr in ('czxid', 'creation_transaction_id', 'ctime', 'created')]
+  ctx.ob('C19.R7', dc, 'a re-created parent is told apart from the one being watched', bool(ids),
+         '_data_changed only looks at "stat is None" and the _watching flag: delete member, delete parent, re-create parent before the data watch re-reads -> '
+         'the children watch stopped on NoNodeError, the data watch sees a valid stat with _watching still True and nothing restarts the children watch: '
+         'no later join or leave is ever reported',
+         'for every history including deletion and re-creation of the path itself')
